@@ -143,6 +143,17 @@ class Tree:
             return ["int", self.paths[a]]
         return self.ext(tgt)
 
+    def lookup_agrees(self, cont, member):
+        """a member yielded by iterating a link list is also found by the membership test and by its id (C03 on the copy)"""
+        try:
+            if member not in cont or member.id not in cont:
+                return "member_not_found_by_membership_test"
+            if addr_of(cont[member.id]) != addr_of(member):
+                return "lookup_by_id_yields_another_object"
+            return "agrees"
+        except Exception as e:
+            return "lookup_raises_" + type(e).__name__
+
     def node(self, obj, path):
         import numpy as np
         from ..snapshot import public_properties, DERIVED
@@ -168,7 +179,7 @@ class Tree:
                         rec[name] = ["raises", type(e).__name__]
                 else:
                     try:
-                        rec[name] = ["links", [self.resolve(x, name) for x in v]]
+                        rec[name] = ["links", [self.resolve(x, name) for x in v], [self.lookup_agrees(v, x) for x in v]]
                     except Exception as e:
                         rec[name] = ["raises", type(e).__name__]
             else:
